@@ -49,7 +49,9 @@ def signature(tr: dict, i: int, clause: str, vis: str) -> str:
         cause = "listed-in-ignore_methods"
     elif tr["modign"] == "sut":
         cause = "module-in-ignore_modules"
-    elif r["inh"] not in ("own", "sut"):
+    elif r["inh"] != "own":
+        # written in the SUT but not in the class it is listed for: inh=sut is the view of a member
+        # inherited (not overridden) from a base class of the module under test
         cause = f"inh={r['inh']}"
     else:
         cause = f"name={r['nc']}@{vis}"
@@ -116,8 +118,11 @@ def run(ctx: Ctx) -> None:
         "eligibility by name follows the documentation of Configuration.element_visibility / ElementVisibility",
         "not demanded (either answer accepted): constructors and members of non-public, abstract, nested "
         "classes; enum classes as such; lambdas, coroutines, closures, properties, dunder-named members, "
-        "`main` / `test*` functions, module-level `_x__y` names under PROTECTED, inherited SUT methods "
-        "listed again under the subclass",
+        "`main` / `test*` functions, module-level `_x__y` names under PROTECTED",
+        "a callable is defined in the class whose body contains it: a member (method, static method, class "
+        "method, property) that a class of the module under test inherits without overriding it is not a "
+        "callable of that class -- base class in another module: defined in another module; base class in the "
+        "module under test: under test once, via the base class",
         "'really defined in' = file of the code object / inspect.getsourcefile of the class",
         "ignore_methods entries have the form <module>.<qualname> (as consumed by instrumentation/machinery.py)",
     ]
@@ -172,6 +177,18 @@ def run(ctx: Ctx) -> None:
                              e["vis"], t["modign"], i in e["ut"]))
     ctx.notes["members_rendered"] = sum(len(t["M"]) for t in traces)
     ctx.notes["largest_module_members"] = max(len(t["M"]) for t in traces)
+    # inherited members in the analysed modules: (kind, base class in sut/other, view or override) -> modules
+    inherited: dict[str, int] = {}
+    for t in traces:
+        for key in {f"{r['kind']}/base={t['M'][r['src'] - 1]['def']}/"
+                    f"{'inherited' if r['inh'] in ('sut', 'other') else 'overridden'}"
+                    for r in t["M"] if r["src"]}:
+            inherited[key] = inherited.get(key, 0) + 1
+    ctx.notes["modules_with_inherited_member"] = dict(sorted(inherited.items()))
+    need = {f"{k}/base={b}/{w}" for k in ("method", "staticmethod", "classmethod", "property")
+            for b in ("sut", "other") for w in ("inherited", "overridden")}
+    if need - set(inherited):
+        raise MachineryError(f"vacuous: no analysed module contains {sorted(need - set(inherited))}")
     _check(ctx, traces, cases)
     small = [t for t in traces if 2 <= len(t["M"]) <= 4]
     for t in small[:1] + small[len(small) // 2:len(small) // 2 + 1] + small[-1:]:
